@@ -50,7 +50,7 @@ Definition enc_wres (r : wres) : V :=
   end.
 Definition enc_lend (e : lend) : V :=
   match e with LEnd => VI 0 | LRaised (AtTimeout _ _) => VI 2 | LRaised (Errored _) => VI 3 | LRaised _ => VI 1 | LFuel => VI 9 end.
-Fixpoint run_wops (Wd : option nat) (ops : list wop) (s : st) (evs : list ev) : list V :=
+Fixpoint run_wops (Wd : option nat) (ops : list (wop rx)) (s : st) (evs : list ev) : list V :=
   match ops with
   | [] => []
   | o :: r =>
@@ -59,16 +59,26 @@ Fixpoint run_wops (Wd : option nat) (ops : list wop) (s : st) (evs : list ev) : 
           match readlines rx rx_search crlf_rx Wd 200 s evs [] with
           | (ls, fin, s', e') => VL [VL [VI 2; vlist vtext ls; enc_lend fin]; vtext (pend s'); vtext (buf s'); vnat (length e')] :: run_wops Wd r s' e'
           end
+      | WCall k ps t0 =>
+          match expect_loop rx rx_search {| ckind := k; pats := ps; W := Wd |} t0 s evs with
+          | (x, s', e') =>
+              VL [VL [VI 3; match x with
+                            | Matched i b a _ => VL [VI 0; vnat i; vtext b; vtext a]
+                            | AtEof i b => VL [VI 1; vopt vnat i; vtext b]
+                            | AtTimeout i b => VL [VI 2; vopt vnat i; vtext b]
+                            | Errored b => VL [VI 3; vtext b]
+                            end]; vtext (pend s'); vtext (buf s'); vnat (length e')] :: run_wops Wd r s' e'
+          end
       | _ =>
           match (match o with
                  | WReadline => readline rx rx_search crlf_rx Wd s evs
                  | WReadAll => read_all rx rx_search Wd s evs
                  | WReadN n => read_n rx rx_search dot_n Wd n s evs
-                 | WReadlines => (WText [], s, evs)
+                 | _ => (WText [], s, evs)
                  end) with
           | (x, s', e') => VL [enc_wres x; vtext (pend s'); vtext (buf s'); vnat (length e')] :: run_wops Wd r s' e'
           end
       end
   end.
-Definition run_wrappers (c : option nat * list wop * list ev * st) : V :=
+Definition run_wrappers (c : option nat * list (wop rx) * list ev * st) : V :=
   match c with (Wd, ops, evs, s0) => VL (run_wops Wd ops s0 evs) end.
